@@ -10,6 +10,9 @@ in the MIDDLE of the code (jumped over by a goto/16); the set_instructions() HIS
 instruction list -- prepend 1 nop, prepend 2 nops, nop behind the final return, list replaced by itself --, NEW
 MethodAnalysis judged against the reference decoded from the edited bytes; keys end in ":after:set_instructions";
 histories that make a switch offset 2 mod 4 are counted, not judged).
+No-op history (plans again-*): the SAME parsed code analysed again without any edit -- a stand-alone MethodAnalysis(vm, em)
+and a second Analysis(vm) over the same DEX object -- judged exactly like the first analysis (keys end in
+":second-analysis"); every shipped method is likewise analysed twice.
 Oracle (ref/cfg.judge_c11): for every basic block, the SET of blocks in `childs` equals the blocks containing the
 in-method targets of the block's last instruction -- next block for fall-through and for the not-taken side of if/switch,
 the jump target for goto / taken if, every case target for switches, nothing after return/throw -- and the set of
